@@ -442,7 +442,17 @@ impl World for Cti {
         check_outcome(ok, &x, op)?;
         if ok {
             Self::update(m, op);
+            if x.oracle == "limit-exact" {
+                cx.stats.count("accepted-at-limit", 1);
+            }
+            if let CtiOp::AddIssuer(_, l) | CtiOp::Update(_, l) = op {
+                if l.len() == MAX_TOPICS {
+                    cx.stats.count("accepted-list-of-15-topics", 1);
+                }
+            }
             self.observe(i, m, cx)?;
+        } else if x.ok == Some(false) {
+            cx.stats.count(&format!("refused.{}", x.oracle), 1);
         }
         Ok(ok)
     }
@@ -481,7 +491,8 @@ fn cti_worlds(tier: Tier) -> Vec<(Cti, usize)> {
                 seeds: vec![CtiSeed::Topics14, CtiSeed::Issuers49],
                 topics: vec![1, 2],
                 issuers: vec![0, 1],
-                lists: vec![vec![100], vec![1, 100]],
+                // the last list names 15 topics: admissible exactly when all 15 exist (seed Topics14 + topic 1)
+                lists: vec![vec![100], vec![1, 100], (100..114u32).chain([1]).collect()],
                 probe_topics: vec![100, 113],
                 probe_issuers: vec![100, 148],
             },
@@ -780,6 +791,9 @@ impl World for Keys {
                     m.remove(&(*k, *t, *r));
                 }
                 KeyOp::AllowEmpty(..) => {}
+            }
+            if x.oracle == "limit-exact" {
+                cx.stats.count("accepted-at-limit", 1);
             }
             self.observe(i, m, cx)?;
         } else if x.ok == Some(false) {
@@ -1612,6 +1626,8 @@ fn doc_worlds(tier: Tier) -> Vec<(Docs, usize)> {
 // (5) identity registry storage: account -> (identity, type, country entries), recovery links
 
 const MAX_COUNTRY: usize = 15;
+const MAX_METADATA_ENTRIES: usize = 10;
+const MAX_METADATA_STRING: usize = 100;
 
 use stellar_tokens::rwa::identity_registry_storage as irs;
 
@@ -1656,6 +1672,20 @@ fn cd_of(e: &Env, v: u8) -> irs::CountryData {
     match v {
         0 => CountryData { country: CountryRelation::Individual(I::Residence(840)), metadata: None },
         1 => CountryData { country: CountryRelation::Organization(O::Incorporation(276)), metadata: None },
+        // metadata probes: 10 = ten entries of 100 characters (both documented maxima), 11 = eleven
+        // entries, 12 = one entry of 101 characters
+        10..=12 => {
+            let mut md = SMap::new(e);
+            let (entries, len) = match v {
+                10 => (MAX_METADATA_ENTRIES, MAX_METADATA_STRING),
+                11 => (MAX_METADATA_ENTRIES + 1, 1),
+                _ => (1, MAX_METADATA_STRING + 1),
+            };
+            for k in 0..entries {
+                md.set(soroban_sdk::Symbol::new(e, &format!("k{k}")), SString::from_str(e, &"m".repeat(len)));
+            }
+            CountryData { country: CountryRelation::Individual(I::TaxResidency(900 + v as u32)), metadata: Some(md) }
+        }
         _ => {
             let mut md = SMap::new(e);
             md.set(soroban_sdk::Symbol::new(e, "note"), SString::from_str(e, "v"));
@@ -1665,7 +1695,7 @@ fn cd_of(e: &Env, v: u8) -> irs::CountryData {
 }
 
 fn cd_id(e: &Env, d: &irs::CountryData) -> Result<u8, Violation> {
-    for v in 0..6u8 {
+    for v in (0..6u8).chain(10..13u8) {
         if cd_of(e, v) == *d {
             return Ok(v);
         }
@@ -1707,6 +1737,19 @@ impl Irs {
 
     fn expect(&self, m: &IrsModel, op: &IrsOp) -> Ex {
         let absent = |acc: &u16| must(false, "absent-removal-refused", format!("account {acc} has no stored identity"));
+        let used: Vec<u8> = match op {
+            IrsOp::Add { cds, .. } => cds.clone(),
+            IrsOp::AddCd(_, l) => l.clone(),
+            IrsOp::ModCd(_, _, v) => vec![*v],
+            _ => vec![],
+        };
+        if used.iter().any(|v| *v == 11 || *v == 12) {
+            return must(
+                false,
+                "limit-exact",
+                format!("a country entry carries more than {MAX_METADATA_ENTRIES} metadata entries or a metadata string longer than {MAX_METADATA_STRING} characters"),
+            );
+        }
         match op {
             IrsOp::Add { acc, cds, .. } => {
                 if m.rec.contains_key(acc) {
@@ -1963,6 +2006,10 @@ impl World for Irs {
         .into()
     }
 
+    fn leaf_only(&self, op: &IrsOp) -> bool {
+        matches!(op, IrsOp::AddCd(_, l) if l.iter().any(|v| *v >= 10))
+    }
+
     fn apply(&self, i: &mut IrsInst, op: &IrsOp) {
         self.call(i, op);
     }
@@ -2013,7 +2060,7 @@ fn irs_worlds(tier: Tier) -> Vec<(Irs, usize)> {
                 accounts: vec![0, 1],
                 idents: vec![10],
                 adds: vec![(10, false, vec![1; MAX_COUNTRY]), (10, false, vec![1; MAX_COUNTRY + 1])],
-                add_cds: vec![vec![2], vec![2, 2]],
+                add_cds: vec![vec![2], vec![2, 2], vec![10], vec![11], vec![12]],
                 mod_cd: 3,
             },
             tier.pick(3, 4),
